@@ -560,6 +560,13 @@ theorem repo_no_race_of_conformance_tokens {tr : List Ev} (hwf : WF tr)
     `repo_groups_ok`) and counts them here. -/
 theorem repo_no_copied_locks : Gen.copiedLockOps = 0 := by decide
 
+/-- Every object a tracked struct refers to through a field (interface value, pointer to an untracked type) is
+    accounted for: either its type is declared not safe for concurrent use — then every call through the field, or
+    through a local that still refers to it, is a `pointee:` write row of the table and subject to `repo_groups_ok` —
+    or it is declared safe by its own documented contract.  The table's claim is about the fields of the tracked
+    structs *and the objects behind them*; before round 6 the second half was silent (seeded C10-m7). -/
+theorem repo_reference_fields_classified : Gen.unclassifiedRefFields = 0 := by decide
+
 /-- every token of the table is a plain (assumed) token or a barrier token with its guard mutex -/
 theorem repo_tokens_covered :
     Gen.tokenIds.all (fun x => Gen.plainTokenIds.contains x || Gen.barrierTokens.any (fun p => p.1 == x)) = true := by
